@@ -306,7 +306,7 @@ def explore(ctx, tier, rng, specs, search=False):
     thorough ~170 k: line-level one-preemption exhaustive on the tiny pairs and two fixed pairs, every 4th (3 threads:
                    8th) line point (seeded offset) + every call point of the other fixed and the lazy groups;
                    two-preemption call-level lattices capped at ~14 k per tiny pair and 3 k per other pair; 5000 random.
-    failing-input search (middle budget ~60 k): as quick but every 3rd call point and 600 random line points per group,
+    failing-input search (middle budget ~60 k): as quick but every 4th call point and 400 random line points per group,
                    1500 random."""
     quick = tier == "quick" and not search
     full = tier == "thorough" and not search     # (the failing-input search uses the middle budget)
@@ -353,7 +353,7 @@ def explore(ctx, tier, rng, specs, search=False):
                 if quick and gi >= 2:
                     sub, ctag = one[(gi + off) % 12::12], "one-preemption-sampled"
                 elif not full and gi >= 2:
-                    sub, ctag = one[(gi + off) % 3::3], "one-preemption-sampled"
+                    sub, ctag = one[(gi + off) % 4::4], "one-preemption-sampled"
                 else:
                     sub, ctag = one, "one-preemption-exhaustive"
                 for ch in chunks(sub, 120):
@@ -362,7 +362,7 @@ def explore(ctx, tier, rng, specs, search=False):
                     st = 4 if len(urls) == 2 else 8
                     sample, tag = line_one[off % st::st], "one-preemption-every-%dth" % st
                 else:
-                    sample = rng.sample(line_one, min(150 if quick else 600, len(line_one)))
+                    sample = rng.sample(line_one, min(150 if quick else 400, len(line_one)))
                     tag = "one-preemption-random-sample"
             for ch in chunks(sample, 120):
                 jobs.append((spec, urls, ch, tag, "line"))
@@ -462,7 +462,8 @@ def targeted(ctx, rng, breaks, search=False, seen=()):
         g[1].setdefault(b["url"], b.get("value"))
     jobs = []
     notes = []
-    k1, n_a, n_cls, per_pair, n_groups = (32, 48, 16, 80, 4) if search else (8, 24, 12, 40, 1)
+    k1, n_a, n_cls, per_pair, n_groups = (24, 36, 12, 40, 2) if search else (8, 24, 12, 40, 1)
+    cap = 20000 if search else 6000          # targeted schedules per container
     for label in sorted(by):
         funcs = set(M.functions_naming([label]))
         groups = sorted(by[label].values(), key=lambda g: -len(g[1]))
@@ -510,13 +511,23 @@ def targeted(ctx, rng, breaks, search=False, seen=()):
             return sorted(near | set(rest))
 
         n_plans = 0
+        label_jobs = []
+        near_points = {key: set(k for h in r[2] for k in (h - 1, h, h + 1)) for key, r in prof.items()}
         for spec, ua, ub, both in pairs:
             plans = [[(0, k), (1, INF)] for k in points(spec, ua, per_pair * (4 if both else 1))]
             if both:
                 plans += [[(1, k), (0, INF)] for k in points(spec, ub, per_pair * 4)]
+            label_jobs.append((spec, [ua, ub], plans))
+        total = sum(len(j[2]) for j in label_jobs)
+        keep = 1 if total <= cap else -(-total // cap)
+        o = rng.randrange(1 << 16)
+        for spec, pair, plans in label_jobs:
+            if keep > 1:
+                near = [pl for pl in plans if pl[0][1] in near_points.get((repr(spec), pair[pl[0][0]]), ())]
+                plans = near + [pl for i, pl in enumerate(plans) if (i + o) % keep == 0 and pl not in near]
             n_plans += len(plans)
             for ch in chunks(plans, 100):
-                jobs.append((spec, [ua, ub], ch, "targeted-line:%s" % label.rsplit(".", 1)[1], "line"))
+                jobs.append((spec, pair, ch, "targeted-line:%s" % label.rsplit(".", 1)[1], "line"))
         notes.append("%s: functions %s; %d closest-prefix pairs (of %d candidates) + %d (request x value-class) pairs, "
                      "%d targeted one-preemption schedules"
                      % (label, sorted("%s:%s" % f for f in funcs), min(len(cands), k1), len(cands),
